@@ -16,7 +16,7 @@ import (
 )
 
 // Block templates (payload of the extend event), simplest first.
-var BlockTemplates = []string{"e", "ca", "pa", "sa", "sj", "ch", "ab", "st", "sw", "bo", "bw", "nd", "bn"}
+var BlockTemplates = []string{"e", "ca", "pa", "pp", "sa", "sj", "ch", "ab", "st", "sw", "bo", "bw", "nd", "bn"}
 
 // Reorg branch patterns.
 var ReorgPatterns = []string{"E", "R", "D", "P"}
@@ -110,6 +110,14 @@ func (w *World) Content(t string, l *Ledger) (txs []*wire.MsgTx, ok bool) {
 			return nil, false
 		}
 		return []*wire.MsgTx{cb, spend([]*Coin{c}, out(3*Mass, A.Addrs[1].Pk), out(c.Value-3*Mass-fee, w.SPk))}, true
+	case "pp":
+		// one transaction paying the SAME address twice (different values): two credits that
+		// share transaction, script and address
+		c := s()
+		if c == nil {
+			return nil, false
+		}
+		return []*wire.MsgTx{cb, spend([]*Coin{c}, out(2*Mass+3, A.Addrs[0].Pk), out(c.Value-3*Mass-8-fee, w.SPk), out(Mass+5, A.Addrs[0].Pk))}, true
 	case "sa":
 		c := w.walletCoin(l, "A", ClassStd, nil)
 		if c == nil {
